@@ -52,7 +52,7 @@ RULE = (
     "Distinct by canonical JSON of the case."
 )
 BUDGET = {
-    "quick": {"cases": 480, "shrink": False, "time_cap_s": 400},
+    "quick": {"cases": 800, "shrink": False, "time_cap_s": 400},
     "thorough": {"cases": 6000, "shrink": True, "shrink_cap_s": 120, "time_cap_s": 2400},
 }
 EPS = 2.0 ** -52
